@@ -95,12 +95,9 @@ McKeyOf(genAppKey, keyEnc) == Encrypt(Encrypt(Encrypt(genAppKey, McZero16), McZe
 McAppSKeyOf(genAppKey, keyEnc, addr) == Encrypt(McKeyOf(genAppKey, keyEnc), Block(1, addr))
 McNetSKeyOf(genAppKey, keyEnc, addr) == Encrypt(McKeyOf(genAppKey, keyEnc), Block(2, addr))
 
-U32Lt(a, b) == a[1] < b[1] \/ (a[1] = b[1] /\ a[2] < b[2])
-U32Inc(c) == IF c = <<65535, 65535>> THEN c ELSE IF c[2] = 65535 THEN <<c[1] + 1, 0>> ELSE <<c[1], c[2] + 1>>
-\* the smallest counter >= next whose low half is the wire counter (<<>> if there is none below 2^32)
-Rebuild(next, wire) ==
-    IF wire >= next[2] THEN <<next[1], wire>>
-    ELSE IF next[1] < 65535 THEN <<next[1] + 1, wire>> ELSE <<>>
+\* the counter rule (shared with the design-level model MCMc.tla), instantiated for the real 16-bit wire counter
+MCore == INSTANCE McCore
+U32Inc(c) == MCore!Inc(65536, 65535, c)
 \* 4 octets, little-endian -> <<hi16, lo16>>
 Le32(p, off) == <<p[off + 2] + 256 * p[off + 3], p[off] + 256 * p[off + 1]>>
 
@@ -160,11 +157,9 @@ Verdict(t, b) ==
         g == GroupOf(t, f.addr, 0) IN
     IF g < 0 THEN [kind |-> "ignore", g |-> -1, n |-> <<>>]
     ELSE LET grp == t[g + 1]
-             n == Rebuild(grp.next, f.fcnt16)
-             authentic == n # <<>> /\ MicOk(b, grp.nwk, n)
-         IN IF authentic /\ U32Lt(n, grp.max) THEN [kind |-> "accept", g |-> g, n |-> n]
-            ELSE IF authentic /\ n = grp.max THEN [kind |-> "atmax", g |-> g, n |-> n]
-            ELSE [kind |-> "ignore", g |-> -1, n |-> <<>>]
+             Auth(n) == MicOk(b, grp.nwk, n)
+             v == MCore!Judge(65536, 65535, grp.next, grp.max, f.fcnt16, Auth)
+         IN [kind |-> v.kind, g |-> IF v.kind = "ignore" THEN -1 ELSE g, n |-> v.n]
 
 \* ---------------------------------------------------------------- one event: the calls in order
 \* walk state: [t, pend, pendk (the answers as the open finding S40 makes them), dls, uacc (a unicast frame was accepted in this event), setup, last (verdict of the last
